@@ -4,6 +4,8 @@ package c06
 import (
 	"encoding/json"
 	"fmt"
+	"math/big"
+	"sort"
 	"strconv"
 	"strings"
 	"testing"
@@ -340,7 +342,9 @@ func TestCheck(t *testing.T) {
 						stem := strings.Repeat(unit, n)
 						// the lists differ in one identifier and (second half of the table) go on after it
 						for _, tails := range [][2]string{{"1", "2"}, {"9", "10"}, {"a", "b"}, {"1", "a"}, {"x", "x.0"},
-							{"9.x", "10.x"}, {"2.0", "10.0"}, {"1.1", "a.0"}, {"b.2", "b.10.0"}, {"9a.1", "10a.1"}, {"2.z.z", "10"}, {"Z.1", "a.0"}} {
+							{"9.x", "10.x"}, {"2.0", "10.0"}, {"1.1", "a.0"}, {"b.2", "b.10.0"}, {"9a.1", "10a.1"}, {"2.z.z", "10"}, {"Z.1", "a.0"},
+							// a numeric identifier against an alphanumeric one that sorts below it as text (11.4.3: numeric is always lower)
+							{"2", "1a"}, {"9", "-"}, {"10", "1-"}, {"5", "0x"}, {"2.x", "1a.x"}, {"9.0", "-.0"}} {
 							c := Case{A: V{Major: 1, Pre: stem + tails[0]}, B: V{Major: 1, Pre: stem + tails[1], Build: "b"}}
 							judge(c, w)
 							w.Eval(nontrivial(c))
@@ -376,6 +380,48 @@ func TestCheck(t *testing.T) {
 								judge(c, w)
 								w.EvalRandom(vkit.Hash64("B3c", c.A.Pre, c.B.Pre), nontrivial(c))
 							}
+						}
+					}
+				}
+			}
+		})
+	})
+
+	// Phase B3e: numeric identifiers that are neighbours at the places where a fixed-width or floating-point representation
+	// stops being exact (2^k and 10^k, k up to 70 / 22): every identifier against its 6 nearest neighbours in the sorted list.
+	r.Phase("B3e: numeric pre-release identifiers at 2^k-1, 2^k, 2^k+1 (k = 0..70) and 10^k-1, 10^k, 10^k+1 (k = 0..22): each against its nearest neighbours, in first and later positions", func() {
+		seen := map[string]bool{}
+		var nums []*big.Int
+		add := func(x *big.Int) {
+			if x.Sign() >= 0 && !seen[x.String()] {
+				seen[x.String()] = true
+				nums = append(nums, new(big.Int).Set(x))
+			}
+		}
+		for k := 0; k <= 70; k++ {
+			x := new(big.Int).Lsh(big.NewInt(1), uint(k))
+			for d := int64(-2); d <= 2; d++ {
+				add(new(big.Int).Add(x, big.NewInt(d)))
+			}
+		}
+		for k := 0; k <= 22; k++ {
+			x := new(big.Int).Exp(big.NewInt(10), big.NewInt(int64(k)), nil)
+			for d := int64(-2); d <= 2; d++ {
+				add(new(big.Int).Add(x, big.NewInt(d)))
+			}
+		}
+		sort.Slice(nums, func(i, j int) bool { return nums[i].Cmp(nums[j]) < 0 })
+		r.Parallel(int64(len(nums)), 8, func(w *vkit.W, lo, hi int64) {
+			for i := lo; i < hi; i++ {
+				for j := i - 3; j <= i+3; j++ {
+					if j < 0 || j >= int64(len(nums)) {
+						continue
+					}
+					for _, lead := range []string{"", "rc.", "0.x."} {
+						for _, trail := range []string{"", ".a"} {
+							c := Case{A: V{Major: 1, Pre: lead + nums[i].String() + trail, Build: "b"}, B: V{Major: 1, Pre: lead + nums[j].String() + trail}, Helpers: true}
+							judge(c, w)
+							w.EvalRandom(vkit.Hash64("B3e", c.A.Pre, c.B.Pre), nontrivial(c))
 						}
 					}
 				}
